@@ -162,6 +162,16 @@ NewChain(s, l) ==
   /\ act' = Label("NewChain", s, 0, "", {}, FALSE, FALSE, 0)
   /\ UNCHANGED <<disk, nrun, excuse>>
 
+\* Chain(config2, shared_tasks=registry): a second chain built LATER on the registry of an existing one.  Objects
+\* of computations the registry already has are shared as they are - held values and forced flags included.
+AddChain(s, rc) ==
+  /\ Tick
+  /\ Len(slot[s].rcs) = 1 /\ <<slot[s].rcs[1], rc>> \in Lists
+  /\ slot' = [slot EXCEPT ![s].rcs = <<slot[s].rcs[1], rc>>]
+  /\ lastruns' = <<>> /\ lasterr' = FALSE
+  /\ act' = Label("AddChain", s, 0, rc, {}, FALSE, FALSE, 0)
+  /\ UNCHANGED <<disk, nrun, excuse>>
+
 \* chains[m][n].value, possibly with the run of computation f raising (f = 0: no fault)
 Request(s, m, n, f) ==
   /\ Tick
@@ -252,6 +262,7 @@ Restart ==
 AllNodes == UNION {Nodes[rc] : rc \in RCs}
 Next ==
   \/ \E s \in Slots, l \in Lists : NewChain(s, l)
+  \/ \E s \in Slots, rc \in RCs : AddChain(s, rc)
   \/ \E s \in Slots, m \in 1..2, n \in AllNodes :
         slot[s].rcs # <<>> /\ m <= Len(slot[s].rcs) /\ n \in Nodes[slot[s].rcs[m]] /\
         \E f \in {0} \cup (IF EnableFail THEN PullClosure(DescId[slot[s].rcs[m]][n]) ELSE {}) : Request(s, m, n, f)
@@ -307,7 +318,7 @@ AtMostOnce == (Count /\ ~EnableForce /\ ~EnableFail) => \A k \in Ks : nrun[k] <=
 
 \* C04: a request runs nothing outside the pull closure of the requested task; inspection and construction run nothing
 OnlyOnDemand ==
-  [][ /\ act'.name \in {"NewChain", "Inspect", "Restart", "Force"} => lastruns' = <<>>
+  [][ /\ act'.name \in {"NewChain", "AddChain", "Inspect", "Restart", "Force"} => lastruns' = <<>>
       /\ act'.name = "Request" =>
            \A i \in 1..Len(lastruns') :
               lastruns'[i] \in PullClosure(DescId[slot[act'.s].rcs[act'.m]][act'.n])
@@ -321,6 +332,9 @@ RunOnlyIfNeeded ==
         \/ disk[KeyOf[d]] = <<>>
         \/ \E s \in Slots : d \in slot'[s].forced
     ]_vars
+
+\* C04/C13: building another chain on a registry neither drops nor creates held values
+AddChainKeeps == [][act'.name = "AddChain" => slot'[act'.s].held = slot[act'.s].held /\ slot'[act'.s].forced = slot[act'.s].forced]_vars
 
 \* C04/C07: one call never runs a computation twice
 NoDoubleRun == [][ act'.name # "MultiForce" =>
